@@ -110,3 +110,23 @@ PROPS["C10"] = {
             thorough={"cases": 10000, "size": 200, "shards": 16}),
     ],
 }
+
+PROPS["C05"] = {
+    "level": "exploration",
+    "technique": "model-based property-based testing (rapidcheck): generated multi-endpoint segment scripts and interleavings against a reference reassembler",
+    "rule": "cases = 1..4 endpoint scripts (unsegmented frames and messages of 2..12 (thorough ..40) segments of 0..200 (..1500) "
+            "declared bytes, start counters around the 16-bit wrap, optional non-message trailing bytes after a segment) merged by "
+            "a generated schedule; non-trivial when a segmented message is delivered AND the history has a context switch to "
+            "another endpoint inside an open message, a counter wrap inside a message, trailing bytes, or a zero-length segment; "
+            "distinct = distinct serialized cases",
+    "assumptions": COMMON_ASSUMPTIONS + ["expected deliveries are derived twice (from the script and from the byte-level reference "
+                                         "reassembler); a disagreement between the two aborts as HARNESS-ERROR"],
+    "level_text": "Model-based generated-input search: after every decode call the delivered packets must equal the reference "
+                  "model's (nothing before the last segment, exactly one packet at it, concatenation of declared bytes, first "
+                  "segment's header fields).",
+    "level_note": "Trusted: harness/oracle/model.h Reassembler (semantics taken from the property statements).",
+    "stages": [
+        pbt("interleavings", "pbt_C05", quick={"cases": 1500, "size": 100, "shards": 4},
+            thorough={"cases": 20000, "size": 200, "shards": 16}),
+    ],
+}
